@@ -22,6 +22,9 @@ type Cfg struct {
 	Strs          []string
 	Nums          []string // numeric literal texts (non-negative), e.g. "0","1","1.5"
 	OnlyAccessors bool     // C07: accessors + filters only
+	// QPatterns, if set, are like_regex patterns used (every other time) with
+	// the q flag only: as regular expressions most of them do not compile.
+	QPatterns []string
 }
 
 // DefaultCfg is the general-purpose configuration.
@@ -327,6 +330,9 @@ func (g *G) Pred(depth int, inFilter, inSub bool) *N {
 		}
 		return &N{K: KBin, S: "starts with", A: g.Expr(depth, inFilter, inSub), B: r}
 	case 7:
+		if g.C.Regex && len(g.C.QPatterns) > 0 && g.R.IntN(4) == 0 {
+			return &N{K: KRegex, A: g.Expr(depth, inFilter, inSub), S: g.pick(g.C.QPatterns), Flags: g.pick([]string{"q", "iq", "qs", "mq"})}
+		}
 		if g.C.Regex {
 			return &N{K: KRegex, A: g.Expr(depth, inFilter, inSub), S: g.pick([]string{"^a", "b$", "a.b", "", "A", "a\nb"}), Flags: g.pick([]string{"", "", "i", "s", "m", "q", "iq"})}
 		}
